@@ -222,7 +222,10 @@ func runSWInBubble(t *testing.T, sc *SWScenario) []sim.Ev {
 	// the library reports where its swarm exploration stops early (two lookups in a row without a new peer):
 	// logged with the keys under the explored prefix, whose recipients are then judged under the known finding
 	sweepSetHook(func(point, prefix string) {
-		if point != "explore:gaveup" {
+		// explore:gaveup   the exploration of prefix ended early
+		// schedule:subsume prefix enters the schedule (not after a reprovide) and replaces the longer prefixes under it
+		ev := map[string]string{"explore:gaveup": "GaveUp", "schedule:subsume": "Merged"}[point]
+		if ev == "" {
 			return
 		}
 		under := []int{}
@@ -241,7 +244,7 @@ func runSWInBubble(t *testing.T, sc *SWScenario) []sim.Ev {
 		}
 		e.mu.Lock()
 		if e.begun {
-			e.tr.Add("GaveUp", "prefix", prefix, "keys", sim.Ints(under), "ts", e.now())
+			e.tr.Add(ev, "prefix", prefix, "keys", sim.Ints(under), "ts", e.now())
 		}
 		e.mu.Unlock()
 	})
@@ -280,6 +283,14 @@ func runSWInBubble(t *testing.T, sc *SWScenario) []sim.Ev {
 		t.Fatalf("provider.New: %v", err)
 	}
 	add := func(ev string, kv ...any) { e.mu.Lock(); e.tr.Add(ev, kv...); e.mu.Unlock() }
+	// what the provider itself reports: online | disconnected | offline, and the number of keys waiting to be provided
+	state := func() (string, int) {
+		st, err := inner.Stats(context.Background())
+		if err != nil || st.Closed {
+			return "closed", 0
+		}
+		return st.Connectivity.Status, int(st.Queues.PendingKeyProvides)
+	}
 	nearestOf := func() []any {
 		// the r nearest peers of every key in the current swarm (independent computation)
 		out := []any{}
@@ -314,11 +325,13 @@ func runSWInBubble(t *testing.T, sc *SWScenario) []sim.Ev {
 		case "start":
 			add("Start", "keys", sim.Ints(op.Keys), "ts", e.now())
 			err := prov.StartProviding(false, mhs(op.Keys)...)
-			add("OpResult", "op", "start", "err", errS(err), "ts", e.now())
+			st, _ := state()
+			add("OpResult", "op", "start", "err", errS(err), "ts", e.now(), "state", st, "keys", sim.Ints(op.Keys))
 		case "once":
 			add("Once", "keys", sim.Ints(op.Keys), "ts", e.now())
 			err := prov.ProvideOnce(mhs(op.Keys)...)
-			add("OpResult", "op", "once", "err", errS(err), "ts", e.now())
+			st, _ := state()
+			add("OpResult", "op", "once", "err", errS(err), "ts", e.now(), "state", st, "keys", sim.Ints(op.Keys))
 		case "stop":
 			add("Stop", "keys", sim.Ints(op.Keys), "ts", e.now())
 			err := prov.StopProviding(mhs(op.Keys)...)
@@ -351,9 +364,10 @@ func runSWInBubble(t *testing.T, sc *SWScenario) []sim.Ev {
 			e.mu.Unlock()
 		case "online":
 			synctest.Wait()
+			st, _ := state()
 			e.mu.Lock()
 			e.online = true
-			e.tr.Add("Online", "ts", e.now())
+			e.tr.Add("Online", "ts", e.now(), "state", st)
 			e.mu.Unlock()
 		case "failsend":
 			synctest.Wait()
@@ -384,7 +398,8 @@ func runSWInBubble(t *testing.T, sc *SWScenario) []sim.Ev {
 			e.mu.Unlock()
 		case "restart":
 			synctest.Wait()
-			add("Restart", "ts", e.now())
+			st, queued := state()
+			add("Restart", "ts", e.now(), "state", st, "queued", queued)
 			_ = prov.Close()
 			_ = ks.Close()
 			if err := build(true); err != nil {
